@@ -9,24 +9,16 @@
   library never yields): "packets whose last byte has been emitted" is the completeness notion.
 -/
 import Acra.Lemmas.Chapter7Enc
-import Acra.Props.C10.Codecs
+import Acra.Lemmas.Chapter7Len
 namespace Acra.Props.C10
 open Acra.Py Acra.Model.Chapter7 Acra.Lemmas.Chapter7 Acra.Gen.Chapter7
 open Acra.Spec.Ch7 (offset startsAux)
 
-/-- the packets, none of them low-latency -/
-def normal (pkts : List Bytes) : List (Bytes × Bool) := pkts.map fun b => (b, false)
-def ptdps (pkts : List Bytes) : List PTDP.State := datapktsToPtdp (normal pkts)
-/-- the PTDP encodings, in order -/
-def encs (pkts : List Bytes) : List Bytes := (ptdps pkts).map encB
-/-- the byte stream -/
-def stream (pkts : List Bytes) : Bytes := (encs pkts).flatten
+/- `normal pkts` = the packets, none marked low-latency; `ptdps pkts` = datapkts_to_ptdp of them;
+   `encs pkts` = their encodings in order; `stream pkts` = the concatenation (Lemmas.Chapter7Enc). -/
 
-theorem ptdps_wf (pkts : List Bytes) : ∀ p ∈ ptdps pkts, PTDP_WF p ∧ p.low_latency = false := by
-  intro p hp
-  simp only [ptdps, datapktsToPtdp, normal, List.flatMap_map, List.mem_flatMap] at hp
-  obtain ⟨b, _, hb⟩ := hp
-  exact ptdpsOf_wf b false p hb
+theorem ptdps_wf (pkts : List Bytes) : ∀ p ∈ ptdps pkts, PTDP_WF p ∧ p.low_latency = false :=
+  ptdps_wf' pkts
 
 /-- every PTDP the library builds packs to the Chapter 7 layout -/
 theorem ptdps_pack_layout (pkts : List Bytes) (p : PTDP.State) (hp : p ∈ ptdps pkts) :
@@ -36,31 +28,17 @@ theorem ptdps_pack_layout (pkts : List Bytes) (p : PTDP.State) (hp : p ∈ ptdps
 /-- the encapsulator terminates (for L ≥ 1) and its state is the stream cut into L-byte frames -/
 theorem encap_invariant (pkts : List Bytes) (L sid : Nat) (hL : 0 < L) :
     ∃ cur out, datapktsToPtfr (normal pkts) L sid = .ok (cur, out) ∧
-      EncInv L sid (encs pkts) cur out := by
-  obtain ⟨cur, out, h, inv⟩ := encFold_inv L sid hL (ptdps pkts) (ptdps_wf pkts) [] (newPtfr L sid) []
-    (by simp) (encInv_init L sid hL)
-  exact ⟨cur, out, h, by simpa [encs] using inv⟩
+      EncInv L sid (encs pkts) cur out := encap_inv pkts L sid hL
 
-/-- frames_len (normal traffic; `_partial`: for sequences with low-latency packets the same fact is
-    checked by the oracle only — see notes): every emitted frame packs, to exactly 4 + L bytes -/
-theorem frames_len_partial (pkts : List Bytes) (L sid : Nat) (hL : 0 < L) (hL2 : L ≤ 2047) (hs : sid < 16)
-    (cur : PTFR.State) (out : List PTFR.State) (h : datapktsToPtfr (normal pkts) L sid = .ok (cur, out)) :
-    ∀ f ∈ out, ∃ b, (PTFR.pack f).2 = .ok b ∧ b.length = 4 + L := by
-  obtain ⟨cur', out', h', inv⟩ := encap_invariant pkts L sid hL
-  rw [h] at h'; injection h' with h'; injection h' with h1 h2; subst h1 h2
+/-- frames_len — ANY traffic (low-latency packets, overflowing insertions included), any frame length:
+    every frame the encapsulator yields has a payload of exactly L bytes and packs to 4 + L bytes -/
+theorem frames_len (pkts : List (Bytes × Bool)) (L sid : Nat) (hs : sid < 16)
+    (cur : PTFR.State) (out : List PTFR.State) (h : datapktsToPtfr pkts L sid = .ok (cur, out)) :
+    ∀ f ∈ out, f.payload.length = L ∧ ∃ b, (PTFR.pack f).2 = .ok b ∧ b.length = 4 + L := by
+  obtain ⟨_, hfull⟩ := encFold_full L sid (datapktsToPtdp pkts) (newPtfr L sid) [] cur out
+    (newPtfr_open L sid) (by simp) h
   intro f hf
-  rw [inv.out_eq, List.mem_map] at hf
-  obtain ⟨k, hk, rfl⟩ := hf
-  have hk' : k < out.length := List.mem_range.1 hk
-  have hkl : (k + 1) * L ≤ out.length * L := Nat.mul_le_mul_right L hk'
-  have hlo := inv.lo
-  have hwf : PTFR_WF (frameOf L sid (encs pkts).flatten (startsAux 0 (encs pkts)) k) := by
-    refine ⟨by simp [frameOf, newPtfr, PTFR.fresh], by simpa [frameOf, newPtfr, PTFR.fresh] using hs,
-      offset_lt L _ k hL2, ?_⟩
-    simp only [frameOf, newPtfr, slice_length]
-    rw [succ_mul'] at hkl ⊢; omega
-  obtain ⟨b, hb, hlen⟩ := PTFR_pack_length _ hwf
-  exact ⟨b, hb, by rw [hlen]; rfl⟩
+  exact ⟨(hfull f hf).2.1, fullFrame_pack L sid hs f (hfull f hf)⟩
 
 /-- payload_stream (prefix law): the emitted payloads followed by the pending frame are the stream,
     and every emitted payload is a full frame -/
